@@ -4,6 +4,11 @@
 #   every property but C20, both tiers -> "relprofile": the same workload (reduced) on the harness
 #             built the way a consumer's --release build is (no debug assertions, wrapping
 #             arithmetic): code under cfg(not(debug_assertions)) and silent wrap-around only exist there
+#             -> "allfeat": the same, with every optional feature of nexrad-model switched on
+#             (chrono, uom, serde: no workspace member enables them, a downstream user may)
+#   C02-C04, C07-C14                   -> "minfeat": the same, with nexrad-decode built *without*
+#             its default `uom` feature (only possible in a build that does not contain nexrad-data,
+#             whose dependency on nexrad-decode switches the defaults back on)
 #   quick:    C05, C06            -> valgrind memcheck on the optimized harness (reduced workload)
 #   thorough: C01, C05, C06       -> ASan with libbz2 itself instrumented (+ valgrind for C05/C06)
 #             C02, C04, C07, C10  -> Miri on the pure-Rust decode/model paths
@@ -16,12 +21,15 @@ export CARGO_NET_OFFLINE=true
 
 lanes=()
 case "$TIER:$PROP" in
-  quick:C05|quick:C06) lanes=(valgrind relprofile) ;;
-  thorough:C05|thorough:C06) lanes=(valgrind asan relprofile) ;;
-  thorough:C01) lanes=(asan relprofile) ;;
-  thorough:C02|thorough:C04|thorough:C07|thorough:C10) lanes=(miri relprofile) ;;
-  quick:C20|thorough:C20) lanes=() ;;
-  *) lanes=(relprofile) ;;
+  quick:C05|quick:C06) lanes=(valgrind) ;;
+  thorough:C05|thorough:C06) lanes=(valgrind asan) ;;
+  thorough:C01) lanes=(asan) ;;
+  thorough:C02|thorough:C04|thorough:C07|thorough:C10) lanes=(miri) ;;
+esac
+case "$PROP" in
+  C20) lanes=() ;;
+  C02|C03|C04|C07|C08|C09|C10|C11|C12|C13|C14) lanes+=(relprofile allfeat minfeat) ;;
+  *) lanes+=(relprofile allfeat) ;;
 esac
 [ ${#lanes[@]} -eq 0 ] && exit 0
 [ "${VERIF_NO_LANES:-0}" = "1" ] && exit 0
@@ -91,32 +99,40 @@ for lane in "${lanes[@]}"; do
       echo "observed: lane=asan+instrumented-libbz2 property=$PROP inputs=$INPUTS reports=$REPORTS libbz2_asan_symbols=$INSTR"
       note "asan+libbz2(asan symbols in libbz2.a: $INSTR)" "$INPUTS" "$REPORTS" "$(echo "$(date +%s.%N) - $T0" | bc)" "$CMD" "$STATUS"
       ;;
-    relprofile)
-      LOG="$OUT/relprofile.log"; mkdir -p "$OUT/rel-evidence"
-      ( cd "$ROOT/harness" && cargo build --profile relwrap --offline ) > "$OUT/relprofile-build.log" 2>&1
+    relprofile|allfeat|minfeat)
+      # the same harness, the same workload (reduced), built another way
+      case "$lane" in
+        relprofile) BUILD=(cargo build --profile relwrap --offline); BIN="$ROOT/harness/target/relwrap/nxverif"; DIV=4
+                    LABEL="release-profile(no debug assertions, wrapping arithmetic)"; TAG="release profile" ;;
+        allfeat)    BUILD=(cargo build --release --offline --features allfeat --target-dir "$ROOT/harness/target-allfeat"); BIN="$ROOT/harness/target-allfeat/release/nxverif"; DIV=6
+                    LABEL="all-features(nexrad-model with chrono, uom, serde switched on)"; TAG="all optional features on" ;;
+        minfeat)    BUILD=(cargo build --release --offline --no-default-features --features bz --target-dir "$ROOT/harness/target-minfeat"); BIN="$ROOT/harness/target-minfeat/release/nxverif"; DIV=6
+                    LABEL="reduced-features(nexrad-decode without uom, no nexrad-data in the build)"; TAG="reduced features" ;;
+      esac
+      [ "$TIER" = "thorough" ] && DIV=$((DIV*2))
+      LOG="$OUT/$lane.log"; mkdir -p "$OUT/$lane-evidence"
+      ( cd "$ROOT/harness" && "${BUILD[@]}" ) > "$OUT/$lane-build.log" 2>&1
       if [ $? -ne 0 ]; then
-        echo "INCONCLUSIVE: property=$PROP release-profile build of the harness failed (see $OUT/relprofile-build.log)"; RC=2
-        note release-profile 0 0 0 "build" inconclusive; continue
+        echo "INCONCLUSIVE: property=$PROP $lane build of the harness failed (see $OUT/$lane-build.log)"; RC=2
+        note "$LABEL" 0 0 0 "build" inconclusive; continue
       fi
-      BIN="$ROOT/harness/target/relwrap/nxverif"
-      DIV=4; [ "$TIER" = "thorough" ] && DIV=8
-      CMD="VERIF_CASES_DIV=$DIV $BIN $PROP $TIER   # [profile.relwrap]: debug-assertions=false, overflow-checks=false"
-      VERIF_CASES_DIV=$DIV VERIF_EVIDENCE_DIR="$OUT/rel-evidence" VERIF_REPLAY_DIR="$OUT" "$BIN" "$PROP" "$TIER" > "$LOG" 2>&1
+      CMD="VERIF_CASES_DIV=$DIV $BIN $PROP $TIER   # built with: ${BUILD[*]}"
+      VERIF_CASES_DIV=$DIV VERIF_EVIDENCE_DIR="$OUT/$lane-evidence" VERIF_REPLAY_DIR="$OUT" "$BIN" "$PROP" "$TIER" > "$LOG" 2>&1
       LRC=$?
-      INPUTS=$(evals_of "$OUT/rel-evidence/$PROP.json")
+      INPUTS=$(evals_of "$OUT/$lane-evidence/$PROP.json")
       REPORTS=$(grep -c '^VIOLATION' "$LOG")
       if [ $LRC -eq 1 ] || [ "$REPORTS" != "0" ]; then
-        grep -E '^(violation-detail|VIOLATION)' "$LOG" | sed 's/^violation-detail: \[/violation-detail: [release profile: /' | head -12
+        grep -E '^(violation-detail|VIOLATION)' "$LOG" | sed "s/^violation-detail: \\[/violation-detail: [$TAG: /" | head -12
         RC=1; STATUS=violation
       elif [ $LRC -ne 0 ]; then
         case $LRC in
-          132|134|136|139) echo "violation-detail: [release profile: process crashed with exit status $LRC while running the $PROP workload] $(tail -3 "$LOG" | tr '\n' ' ')"
+          132|134|136|139) echo "violation-detail: [$TAG: process crashed with exit status $LRC while running the $PROP workload] $(tail -3 "$LOG" | tr '\n' ' ')"
                echo "VIOLATION property=$PROP replay=$LOG"; RC=1; STATUS=crash ;;
-          *) echo "INCONCLUSIVE: property=$PROP release-profile lane exited $LRC (see $LOG)"; grep -E '^(INCONCLUSIVE|HARNESS)' "$LOG" | head -3; RC=2; STATUS=inconclusive ;;
+          *) echo "INCONCLUSIVE: property=$PROP $lane lane exited $LRC (see $LOG)"; grep -E '^(INCONCLUSIVE|HARNESS)' "$LOG" | head -3; RC=2; STATUS=inconclusive ;;
         esac
       else STATUS=clean; fi
-      echo "observed: lane=release-profile property=$PROP inputs=$INPUTS reports=$REPORTS"
-      note "release-profile(no debug assertions, wrapping arithmetic)" "$INPUTS" "$REPORTS" "$(echo "$(date +%s.%N) - $T0" | bc)" "$CMD" "$STATUS"
+      echo "observed: lane=$lane property=$PROP inputs=$INPUTS reports=$REPORTS"
+      note "$LABEL" "$INPUTS" "$REPORTS" "$(echo "$(date +%s.%N) - $T0" | bc)" "$CMD" "$STATUS"
       ;;
     miri)
       L=$(echo "$PROP" | tr A-Z a-z)
